@@ -116,6 +116,26 @@ def run(ctx):
         ctx.ob("C19.1 R-GATE", f, "client_max_window_bits-only-if-offered", unoffered is None,
                "client_max_window_bits is answered on a path where the client's parameter did not match that name",
                witness=unoffered[0].witness() if unoffered else None)
+        # offered values: a window-bits field is only ever lowered, to the value parsed from the client's parameter of the SAME name
+        nst = 0
+        for st in f.all_insts():
+            if st.op != "store":
+                continue
+            t = P.term(f, st.a[1])
+            if t[0] == "field" and t[3] in ("client_max_window_bits", "server_max_window_bits") and P.const_int(st.a[0]) is None:
+                nst += 1
+                vt = P.term(f, st.a[0])
+
+                def lowered(atom, pol, t=t, vt=vt):
+                    if atom[0] != "cmp":
+                        return False
+                    eff = atom[1] if pol else Q.negate_pred(atom[1])
+                    return eff == "ugt" and atom[2] == ("load", t) and atom[3] == vt
+                ctx.ob("C19.1 R-GATE", f, Q.ordinal_site(f, st, P) + ":only-lowered", Q.must_pass(P, f, st.block, lowered),
+                       "%s is set from the client's value without the guard 'current %s > offered value': the answer can carry a larger "
+                       "window than the client offered (RFC 7692 7.1.2.2)" % (t[3], t[3]))
+        if nst < 4:
+            raise AnalysisBroken("window-bits stores from parsed values: %d" % nst)
         # (2) buffer bound
         rc = f.calls("realloc")
         if len(rc) != 1:
@@ -179,4 +199,4 @@ def run(ctx):
                                and a[3] == ("const", 0) and Q._poleq(a, p)) and not any(True for _ in v.calls()) for v in views)
         ctx.note("daemon constructs connections with compression level %s; level 0 returns before negotiating: %s (evidence, not a verdict)" % (lvl, early))
     ctx.floor("C19.1 R-TABLE", 7)
-    ctx.floor("C19.1 R-GATE", 5)
+    ctx.floor("C19.1 R-GATE", 9)
